@@ -61,7 +61,10 @@ Inductive skind :=
 Inductive vtag :=
 | TRequired | TMin (n : Z) | TMax (n : Z)
 | TMinTime (ns : Z) | TMaxTime (ns : Z) | TMinSize (b : Z) | TMaxSize (b : Z)
-| TEndpoint | TUrlPath | TDive.
+| TEndpoint | TUrlPath | TDive
+| TCtorHeaders.          (* not a validate tag: the documented form of the option (a list of "[Name: value]" lines) is
+                            enforced by the component's constructor (decoders.NewDecoder -> util.DecodeHTTPConfigHeaders),
+                            which plugin.New runs while the component's section is being decoded *)
 
 (* a struct field: accepted key (config tag or Go field name), squash flag, validate tags, type *)
 Inductive schema :=
@@ -112,7 +115,7 @@ Record entry := {
   e_conf : option (schema * cval)         (* config schema and registered default; None: constructor takes no config *)
 }.
 
-Inductive err := EType | EUnused | EValidate | EPlaceholder | EPlugin | EHook | EUnsupported | EPanic.
+Inductive err := EType | EUnused | EValidate | EPlaceholder | EPlugin | EHook | EUnsupported | EPanic | ECtor.
 Inductive res (A : Type) := Ok (a : A) | Err (e : err) | Fuel.
 Arguments Ok {A} a.
 Arguments Err {A} e.
@@ -532,6 +535,7 @@ Definition check_tag (s : schema) (c : cval) (t : vtag) : bool :=
   | TEndpoint => match c with CStr x => endpoint_ok x | _ => false end
   | TUrlPath => match c with CStr x => match orc OUrlPath x with Some _ => true | None => false end | _ => false end
   | TDive => true
+  | TCtorHeaders => true        (* validator.v9 never sees it: see ctor_ok *)
   end.
 
 Fixpoint has_dive (l : list vtag) : bool :=
@@ -598,6 +602,74 @@ Fixpoint validate (c : cval) (s : schema) {struct c} : bool :=
          end) cs (flat_fields s)
   | _ => true
   end.
+
+(* ---------------------------------------------------------------- constraints enforced by constructors
+   components/providers/http/util/request.go.  DecodeHeader: a line is "[" name ":" value "]" -- at least three bytes,
+   first '[' and last ']', the text between them is cut at its FIRST colon, name and value are trimmed
+   (strings.TrimSpace, ASCII blanks here), an empty name is an error. *)
+Inductive herr := HFormat | HEmptyKey.
+
+Definition hdr_line (h : str) : (str * str) + herr :=
+  if Nat.ltb (length h) 3 then inr HFormat else
+  match h with
+  | [] => inr HFormat
+  | c :: r =>
+      if negb (c =? 91) then inr HFormat else
+      match rev r with
+      | [] => inr HFormat
+      | z :: ri =>
+          if negb (z =? 93) then inr HFormat else
+          match split_colon [] (rev ri) with
+          | None => inr HFormat
+          | Some (k, v) => match trim k with [] => inr HEmptyKey | k' => inl (k', trim v) end
+          end
+      end
+  end.
+
+(* DecodeHTTPConfigHeaders: the lines are decoded in order into the header set; the first line that does not decode
+   ends the loop and its error is the function's error. *)
+Fixpoint hdr_loop (acc : list (str * str)) (l : list str) : list (str * str) * option herr :=
+  match l with
+  | [] => (acc, None)
+  | h :: r =>
+      match hdr_line h with
+      | inr e => (acc, Some e)
+      | inl kv => hdr_loop (acc ++ [kv]) r
+      end
+  end.
+Definition hdr_decode (l : list str) : list (str * str) * option herr := hdr_loop [] l.
+
+Fixpoint strs_of (l : list cval) : option (list str) :=
+  match l with
+  | [] => Some []
+  | CStr x :: r => match strs_of r with Some xs => Some (x :: xs) | None => None end
+  | _ :: _ => None
+  end.
+
+Definition ctor_tag_ok (t : vtag) (c : cval) : bool :=
+  match t with
+  | TCtorHeaders =>
+      match c with
+      | CNil => true                     (* option not written, nil default: no lines *)
+      | CSlice l =>
+          match strs_of l with
+          | Some ls => match snd (hdr_decode ls) with None => true | Some _ => false end
+          | None => false
+          end
+      | _ => false
+      end
+  | _ => true
+  end.
+Definition ctor_field_ok (tags : list vtag) (c : cval) : bool := forallb (fun t => ctor_tag_ok t c) tags.
+
+(* the constructor of a component looks at the options of its own config struct *)
+Fixpoint ctor_fields (cs : list cval) (ffs : list fld) : bool :=
+  match cs, ffs with
+  | c' :: cs', f :: ffs' => ctor_field_ok (f_tags f) c' && ctor_fields cs' ffs'
+  | _, _ => true
+  end.
+Definition ctor_ok (s : schema) (c : cval) : bool :=
+  match c with CStruct cs => ctor_fields cs (flat_fields s) | _ => true end.
 
 (* ---------------------------------------------------------------- structs, slices, maps, plugins *)
 Fixpoint find_exact (k : str) (kvs : list (str * value)) : option (str * value) :=
@@ -699,7 +771,11 @@ Definition dec_plugin (iface : str) (fk : N) (kvs : list (str * value)) : res cv
               if factory_lazy && negb (fk =? 0) && negb (e_factory e) then Ok (CPlugin name true CNil)
               else
                 match dec cs d (VMap conf) with
-                | Ok c => if validate c cs then Ok (CPlugin name false c) else Err EValidate
+                | Ok c =>
+                    if validate c cs then
+                      (* plugin.New calls the constructor with the filled config *)
+                      if ctor_ok cs c then Ok (CPlugin name false c) else Err ECtor
+                    else Err EValidate
                 | Err e' => Err e'
                 | Fuel => Fuel
                 end
@@ -741,6 +817,52 @@ Definition decode_and_validate (F : nat) (s : schema) (cur : cval) (v : value) :
   end.
 
 End Decode.
+
+(* ---------------------------------------------------------------- property files (lib/confutil/property_var_resolver.go)
+   The file is read line by line (bufio.Scanner with ScanLines: lines end at '\n', one trailing '\r' is dropped, a
+   last line without '\n' counts when it is not empty; a line of 65536 bytes or more ends the scan with ErrTooLong).
+   A line containing '=' is KEY=data, cut at its FIRST '=' (strings.SplitN(line, "=", 2)): everything after it is the
+   data.  The first line whose KEY is the asked one answers; lines without '=' are skipped.
+   `prop_of_files files` is what the oracle `prop` of the decoder is for a given file system. *)
+Fixpoint raw_lines (acc : str) (s : str) : list str :=      (* acc: the current line, reversed *)
+  match s with
+  | [] => match acc with [] => [] | _ => [rev_append acc []] end
+  | c :: r => if c =? 10 then rev_append acc [] :: raw_lines [] r else raw_lines (c :: acc) r
+  end.
+
+Fixpoint drop_cr (l : str) : str :=
+  match l with
+  | [] => []
+  | c :: r => match r with [] => if c =? 13 then [] else [c] | _ => c :: drop_cr r end
+  end.
+
+Fixpoint len_N (s : str) : N := match s with [] => 0 | _ :: r => N.succ (len_N r) end.
+Definition max_token : N := 65536.                       (* bufio.MaxScanTokenSize *)
+Definition line_fits (l : str) : bool := len_N l <? max_token.
+
+Fixpoint split_eq (acc : str) (s : str) : option (str * str) :=
+  match s with
+  | [] => None
+  | c :: r => if c =? 61 then Some (rev_append acc [], r) else split_eq (c :: acc) r
+  end.
+
+Fixpoint prop_scan (key : str) (lines : list str) : option str :=
+  match lines with
+  | [] => None
+  | l :: r =>
+      if line_fits l then
+        match split_eq [] (drop_cr l) with
+        | Some (k, data) => if str_eqb k key then Some data else prop_scan key r
+        | None => prop_scan key r
+        end
+      else None
+  end.
+
+Definition prop_of_files (files : str -> option str) (file key : str) : option str :=
+  match files file with
+  | None => None                                          (* cannot open file *)
+  | Some content => prop_scan key (raw_lines [] content)
+  end.
 
 (* ---------------------------------------------------------------- fuel: three times the depth of the value tree plus three
    (a shorthand hook costs two extra levels; bound proved in Proofs/ConfigFuelProofs.v) *)
